@@ -24,6 +24,21 @@ theorem errorsOf_push_other (S : Store) (x : Entry) (h : ∀ e, x ≠ .error e) 
   simp only [Store.push, errorsOf_append]
   cases x <;> simp [errorsOf] <;> exact absurd rfl (h _)
 
+theorem errorsOf_fulfils (l : List Entry) (h : ∀ e ∈ l, ∃ p : Path, e = Entry.fulfil p) : errorsOf l = [] := by
+  induction l with
+  | nil => simp [errorsOf]
+  | cons x l ih =>
+    obtain ⟨p, hp⟩ := h x (by simp)
+    subst hp
+    simp only [errorsOf]
+    exact ih (fun e he => h e (by simp [he]))
+
+/-- Settling reports no error. -/
+theorem Settled.errorsOf {S S' : Store} (h : Settled S S') : errorsOf S'.log = errorsOf S.log := by
+  obtain ⟨l, hl, hle⟩ := h.log
+  rw [hl, errorsOf_append, errorsOf_fulfils l (fun e he => by obtain ⟨p, _, hp⟩ := hle e he; exact ⟨p.2, hp⟩)]
+  simp
+
 /-- The error the non-null check may raise, given what its child resolves to. -/
 def potErr (fn : MapFn) (o : Out) : List Err :=
   match fn, o with
@@ -744,9 +759,9 @@ theorem query_errors_count (rq : Request) (hq : rq.mutation = false) (r : Res) (
   | stuck => simp at h
   | outOfFuel => simp at h
 
-theorem execSerial_cnt (fuel : Nat) (e : Err) : ∀ (fields : List Field) (n i : Nat) (sched : List Nat) (S : Store),
-    ∀ r, (execSerial fuel fields n i sched S).1 = .done r →
-      (errorsOf (execSerial fuel fields n i sched S).2.2.log).count e + (Fut.ready r).pot.count e ≤
+theorem execSerial_cnt (st : Bool) (fuel : Nat) (e : Err) : ∀ (fields : List Field) (n i : Nat) (sched : List Nat) (S : Store),
+    ∀ r, (execSerial st fuel fields n i sched S).1 = .done r →
+      (errorsOf (execSerial st fuel fields n i sched S).2.2.log).count e + (Fut.ready r).pot.count e ≤
         (errorsOf S.log).count e + (Spec.errsF fields []).count e := by
   intro fields
   induction fields with
@@ -773,10 +788,14 @@ theorem execSerial_cnt (fuel : Nat) (e : Err) : ∀ (fields : List Field) (n i :
         have hc := catchIfNullable_cnt nn f0 S1 e
         have hcs := catchIfNullable_shaped nn f0 S1 hf.2
         rw [h2] at hc hcs
-        rw [execSerial_cons fuel key nn mode rerr c rest n i sched S S1 S2 f0 f hm h1 h2] at h ⊢
+        rw [execSerial_cons st fuel key nn mode rerr c rest n i sched S S1 S2 f0 f hm h1 h2] at h ⊢
         have hw := waitLoop_cnt fuel f sched S2 hcs
-        rcases hwl : waitLoop fuel f sched S2 with ⟨w, sched', S3⟩
-        rw [hwl] at h hw
+        obtain ⟨sched0, S3', hwl, hset, _⟩ := waitSettle_settled st fuel f sched S2
+        rcases hws : waitSettle st fuel f sched S2 with ⟨w, sched', S3⟩
+        rw [hws] at h hwl hset
+        rw [hwl] at hw
+        simp only at hset hw
+        rw [← hset.errorsOf] at hw
         rw [errsF_cons _ _ _ _ _ _ _ hm, List.count_append]
         simp only [List.nil_append]
         have a := hf.1
@@ -803,8 +822,8 @@ theorem mutation_errors_count (rq : Request) (hq : rq.mutation = true) (r : Res)
     (e : Err) : (errorsOf (execute rq).2.log).count e ≤ (Spec.errsF rq.fields []).count e := by
   unfold execute at h ⊢
   simp only [hq, if_true] at h ⊢
-  have hs := execSerial_cnt (Field.invocationsL rq.fields + 1) e rq.fields rq.fields.length 0 rq.sched {}
-  rcases hx : execSerial (Field.invocationsL rq.fields + 1) rq.fields rq.fields.length 0 rq.sched {} with ⟨w, s', S⟩
+  have hs := execSerial_cnt rq.settle (Field.invocationsL rq.fields + 1) e rq.fields rq.fields.length 0 rq.sched {}
+  rcases hx : execSerial rq.settle (Field.invocationsL rq.fields + 1) rq.fields rq.fields.length 0 rq.sched {} with ⟨w, s', S⟩
   rw [hx] at h hs
   cases w with
   | done r' =>
